@@ -865,7 +865,9 @@ func explore(job *simh.Job, out *simh.Out) {
 			ij, _ := json.Marshal(in)
 			digests.Add(simrt.HashString(string(ij)))
 		}
-		if v != nil {
+		if v != nil && job.IsKnown(v.Class) {
+			sum.Oracles.Inc("known:" + v.Class)
+		} else if v != nil {
 			out.Line(map[string]interface{}{"t": "violation", "seed": seed, "replay": mkReplay(job, seed, in, order, oracle, v)})
 			break
 		}
